@@ -73,6 +73,18 @@ def bases(unix_future):
         'bundle2': b(1, [m('/a', [1]), m('/ab', [2])]),
         'nested': b(1, [m('/a', [1]), b(1, [m('/ab', [2])])]),
         'timed': b(timetag(unix_future), [m('/a', [1]), m('/ab', [2])]),
+        # every message carries the time tag of the bundle that encloses it
+        # directly: nested bundle later than its parent (OSC 1.0 demands
+        # inner >= outer), an immediate bundle around a timed one, and two
+        # sibling bundles with different tags
+        'nested_timed': b(timetag(unix_future), [
+            m('/a', [1]),
+            b(timetag(unix_future + 32), [m('/ab', [2])])]),
+        'imm_timed': b(1, [
+            m('/a', [1]), b(timetag(unix_future), [m('/ab', [2])])]),
+        'siblings': b(1, [
+            b(timetag(unix_future), [m('/a', [1])]),
+            b(timetag(unix_future + 32), [m('/ab', [2]), m('/a', [3])])]),
     }
 
 
@@ -308,6 +320,12 @@ def selftest():
                                                  [1, ['/ab', 2]]]
     assert classify(b['array'])['messages'] == [[None, ['/a', [1, 2]]]]
     assert timetag_to_unix(classify(b['timed'])['messages'][0][0]) == 1024.75
+    assert [timetag_to_unix(t) if t != 1 else 1 for t, _ in
+            classify(b['siblings'])['messages']] == [1024.75, 1056.75, 1056.75]
+    assert [timetag_to_unix(t) if t != 1 else 1 for t, _ in
+            classify(b['imm_timed'])['messages']] == [1, 1024.75]
+    assert [timetag_to_unix(t) for t, _ in
+            classify(b['nested_timed'])['messages']] == [1024.75, 1056.75]
     assert layout(b['bundle2'])['ints'] == [[16, 'elem-size'], [28, 'arg'],
                                             [32, 'elem-size'], [44, 'arg']]
     assert layout(b['blob'])['ints'] == [[8, 'blob-size']]
